@@ -84,14 +84,20 @@ pub fn plain_run(shapes: &[Shape], with_shx: bool) -> (Vec<u8>, Vec<u8>) {
 }
 
 /// perform one history on the real writer and log it
-pub fn run_history(tr: &mut Trace, c: &Conc, t: i32, with_shx: bool, hist: &str, syms: &Syms, prop: &str) {
+pub fn run_history(tr: &mut Trace, c: &Conc, t: i32, with_shx: bool, hist: &str, syms: &Syms, prop: &str, short: Option<Vec<usize>>) {
     let sa = build(c, &syms.a);
     let sb = build(c, &syms.b);
     let sx = build(c, &syms.x);
     let (oa, ob, ox) = (abstract_shape(c, &sa), abstract_shape(c, &sb), abstract_shape(c, &sx));
-    tr.run(json!({"ev": "reset", "kind": "writer", "t": t, "tx": syms.x.t, "withShx": with_shx, "hist": hist, "prop": prop}));
+    tr.run(json!({"ev": "reset", "kind": "writer", "t": t, "tx": syms.x.t, "withShx": with_shx, "hist": hist, "prop": prop,
+                  "shortWrites": short.clone().unwrap_or_default()}));
     let shp = LogDest::new();
     let shx = LogDest::new();
+    if let Some(s) = &short {
+        // destinations that accept fewer bytes than offered per call (C12)
+        shp.set_schedule(s.clone());
+        shx.set_schedule(s.clone());
+    }
     let mut w = Some(if with_shx { ShapeWriter::with_shx(shp.clone(), shx.clone()) } else { ShapeWriter::new(shp.clone()) });
     let mut accepted: Vec<Shape> = vec![];
     for ch in hist.chars() {
@@ -244,7 +250,7 @@ pub fn run(a: &Args) {
             let i = k % chunks;
             k += 1;
             distinct.insert((t, *ws, h.clone()));
-            run_history(&mut traces[i], &concs[i], t, *ws, h, &syms, &prop);
+            run_history(&mut traces[i], &concs[i], t, *ws, h, &syms, &prop, None);
         }
         // 2. exhaustive enumeration here (all endings), with random shapes
         let n = if ti < deep_types && deep_len > 0 { deep_len } else { maxlen };
@@ -265,7 +271,7 @@ pub fn run(a: &Args) {
                         let i = k % chunks;
                         k += 1;
                         distinct.insert((t, ws, hh.clone()));
-                        run_history(&mut traces[i], &concs[i], t, ws, &hh, &syms, &prop);
+                        run_history(&mut traces[i], &concs[i], t, ws, &hh, &syms, &prop, None);
                     }
                 }
             }
@@ -285,7 +291,7 @@ pub fn run(a: &Args) {
             let i = k % chunks;
             k += 1;
             distinct.insert((t, ws, h.clone()));
-            run_history(&mut traces[i], &concs[i], t, ws, &h, &syms, &prop);
+            run_history(&mut traces[i], &concs[i], t, ws, &h, &syms, &prop, None);
         }
     }
     let mut files = vec![];
